@@ -128,6 +128,7 @@ pub fn cmd_e3(args: &Args) -> i32 {
     let big_n = args.u64("big-n", 4000) as usize;
     let mut big_cases = 0u64;
     let mut noise_cases = 0u64;
+    let mut skipped_large_panic = 0u64;
     let mut two_caller_evals = 0u64;
     let _ = std::fs::create_dir_all(&out);
     let t0 = Instant::now();
@@ -143,10 +144,18 @@ pub fn cmd_e3(args: &Args) -> i32 {
         let idx = start + k * stride;
         let base = case_for(seed, idx, max_n, big_n);
         cases += 1;
+        if args.flag("dump-case") {
+            println!("{}", base.to_json().pretty());
+            continue;
+        }
         // two cases in three run with noise at the basic-block guards of the library: a yield, a
         // short spin or a short sleep at rarely executed sites and now and then anywhere, from a
         // per-thread PRNG. It widens the race windows of the real threads (uncontrolled, as all of E3).
-        let noise = mix(seed, idx, 0x401) % 3 != 0;
+        let noise = match std::env::var("VERIF_E3_NOISE").ok().as_deref() {
+            Some("0") => false,
+            Some("1") => true,
+            _ => mix(seed, idx, 0x401) % 3 != 0,
+        };
         if noise {
             noise_cases += 1;
             bbguard::set_noise_seed(mix(seed, idx, 0x4015E));
@@ -179,6 +188,17 @@ pub fn cmd_e3(args: &Args) -> i32 {
             }
             let r = fresh(|| s_seq::run_op(&case, *op));
             if seq_only {
+                if matches!(r, Outcome::Panic(_)) {
+                    println!("SEQ-PANIC");
+                }
+                continue;
+            }
+            // The sequential loop stops at the first cell that panics, the parallel loop computes all the
+            // others first: on a large input the library cannot handle (outside C09: both sides panic) the
+            // parallel call is not bounded by the cost of the reference - CPU-hours of exact predicates on
+            // ~1000 co-spherical generators - and a time limit would read that as a hang.
+            if case.gens.len() > 200 && matches!(r, Outcome::Panic(_)) && std::env::var("VERIF_DEV_NO_SKIP").is_err() {
+                skipped_large_panic += 1;
                 continue;
             }
             bbguard::reset_hits();
@@ -264,6 +284,7 @@ pub fn cmd_e3(args: &Args) -> i32 {
         .set("cases", J::u(cases))
         .set("big_cases", J::u(big_cases))
         .set("noise_cases", J::u(noise_cases))
+        .set("ops_not_run_large_input_whose_sequential_build_panics", J::u(skipped_large_panic))
         .set("noise_events", J::u(bbguard::counters().2))
         .set("guard_sites", J::u(bbguard::sites() as u64))
         .set("two_caller_evaluations", J::u(two_caller_evals))
